@@ -103,7 +103,7 @@ def _run(ck, tier):
         ti = f.get("trait_item") or ""
         if ti.startswith(TRAIT + "::"):
             impls.setdefault(f.get("impl_self_head"), {})[last(ti)] = f
-    ck.floor("R-C15-str", "impls of Dictionary", len(impls), 4)
+    ck.floor("R-C15-str", "impls of Dictionary", len(impls), 3)
     npairs = 0
     for head, methods in sorted(impls.items()):
         short = last(head)
@@ -166,7 +166,7 @@ def _run(ck, tier):
             continue
         ck.decide("R-C15-fst", key, "full_dict" in fields and ("arg", 1) in roots, f.loc(t["ln"]),
                   "delegates to full_dict.%s and answers with nothing else (receiver fields %s)" % (m, sorted(fields)))
-    ck.floor("R-C15-fst", "exact-query methods of FstDictionary", n, 10)
+    ck.floor("R-C15-fst", "exact-query methods of FstDictionary", n, 6)
     # FstDictionary::new: full_dict and the fst are built from the same (sorted, deduplicated) vector
     newf = [f for f in p.fns.values() if keyname(p, f) == "FstDictionary::new"]
     if ck.anchor("R-C15-fst", "FstDictionary::new", newf):
